@@ -288,6 +288,21 @@ void apply_edit(NifFile& nif, const std::string& e) {
 	}
 	else if (k == "LB")
 		nif.hdr.AddBlock(std::make_unique<bhkBoxShape>());
+	else if (k == "LF") {
+		// a loose block IN FRONT of the root: added at the end, then swapped with block 0 (the root moves to the
+		// last index). Pruning has to delete block 0 and must keep track of the root that moves down by one.
+		auto b = std::make_unique<NiStringExtraData>();
+		b->name.get() = "loosefront";
+		nif.hdr.AddBlock(std::move(b));
+		uint32_t n2 = nif.hdr.GetNumBlocks();
+		if (n2 > 1) {
+			std::vector<uint32_t> p(n2);
+			for (uint32_t i = 0; i < n2; ++i)
+				p[i] = i;
+			std::swap(p[0], p[n2 - 1]);
+			nif.hdr.SetBlockOrder(p);
+		}
+	}
 	else if (k == "AN") {
 		if (!nodes.empty())
 			nif.AddNode("added" + a, MatTransform(), nodes[num(a) % nodes.size()]);
